@@ -739,7 +739,7 @@ class DataFrameSchemaBackend(PandasSchemaBackend):
             )
 
         failed = check_obj.columns[check_obj.columns.duplicated()]
-        if failed.any():
+        if len(failed) > 0:
             passed = False
             message = (
                 "dataframe contains multiple columns with label(s): "
